@@ -8,7 +8,8 @@
      caskethttp/httpserver/recorder.go   ResponseRecorder.WriteHeader / Write
      caskethttp/log/setup.go             logParse + appendEntry (one rule per distinct scope string,
                                          one exception list per log directive)
-     caskethttp/log/log.go               Logger.ServeHTTP (served when some rule matches, fallback error
+     caskethttp/log/log.go               Logger.ServeHTTP (served when some rule matches, a panic of the
+                                         inner handler turned into status 500, fallback error
                                          response written through the recorder, one line per entry
                                          of every matching rule)
      caskethttp/errors/errors.go         ErrorHandler.ServeHTTP / recovery (as a script transformer)
@@ -379,11 +380,11 @@ Definition log_serve (c : wcfg) (cs : bool) (tbl : list (Z * N)) (ek : N) (rules
   | None => let '((u', _), p) := run c (u, rec0) ops in (u', ret, p, [])
   | Some _ =>
     let '((u1, r1), p) := run c (u, rec0) ops in
-    if p then (u1, ret, true, [])
-    else
+    (* serveNext: a panic of the handler is recovered and becomes the status 500 *)
+    let ret1 := if p then 500%Z else ret in
       let '((u2, r2), ret') :=
-        if (400 <=? ret)%Z then (fst (run c (u1, r1) (err_ops tbl ek ret)), 0%Z)
-        else ((u1, r1), ret) in
+        if (400 <=? ret1)%Z then (fst (run c (u1, r1) (err_ops tbl ek ret1)), 0%Z)
+        else ((u1, r1), ret1) in
       (u2, ret', false,
        map (fun e => (n_id e, r_status r2, logged_size c r2))
            (filter (fun e => should_log cs (n_except e) path) (matching_entries cs rules path)))
@@ -507,8 +508,9 @@ Fixpoint judge1 (c : case) : bool * bool :=
       let agree := Bool.eqb p op && list_beq line_beq ls ol &&
                    (uw_obs_status u =? ous)%Z && (u_size u =? ousz) &&
                    (op || (r =? oret)%Z) in
-      let spec := op || (rule_counts_ok cs rules path ol &&
-                         lines_exact (if (ous =? 0)%Z then 200%Z else ous) ousz ol) in
+      (* a panic of the handler may get past the middleware only when no line is owed *)
+      let spec := rule_counts_ok cs rules path ol &&
+                  (op || lines_exact (if (ous =? 0)%Z then 200%Z else ous) ousz ol) in
       (agree, spec)
   | CSite modelled haserr hdrw head ds path ops ret tbl ost osz ol tf e otails =>
       let wc := {| w_nethttp := true; w_head := head |} in
